@@ -1383,6 +1383,15 @@ ares_status_t ares_send_query(ares_server_t *requested_server,
   query->conn = conn;
   conn->total_queries++;
 
+  /* An event thread may be asleep until what used to be the earliest deadline,
+   * or without limit if nothing was outstanding.  Sending on a connection that
+   * was already open announces no socket state change, so nothing else would
+   * make it take this query's deadline into account. */
+  if (ares_slist_node_first(channel->queries_by_timeout) ==
+      query->node_queries_by_timeout) {
+    ares_event_thread_wake_channel(channel);
+  }
+
   /* We just successfully enqueud a query, see if we should probe downed
    * servers. */
   if (probe_downed_server) {
